@@ -54,8 +54,8 @@ def run(W, chk):
         m = {}
         for (o, ops) in flat_atoms(amt):
             m.setdefault(o, set()).update(ops)
-        good = m.get("info.funds[*].amount") == {"div_floor"} and set(m) <= {"info.funds[*].amount", "Const(2_u64)", "Const(1_u64)"} \
-            and "Const(2_u64)" in m
+        good = m.get("info.funds[*].amount") == {"div_floor", "div:l"} and set(m) <= {"info.funds[*].amount", "Const(2_u64)", "Const(1_u64)"} \
+            and m.get("Const(2_u64)") == {"div_floor", "div:r"}
         chk.expect(good, "PROV-half", "swap leg funds", "funds = deposit.amount div_floor (2,1)",
                    "swapped amount is computed as %s" % {k: sorted(v) for k, v in m.items()}, where(e))
         den = vfield(vfield(da[2], "[*]"), "denom")
@@ -80,7 +80,7 @@ def run(W, chk):
                    "buffer.receiver <- %s" % sorted(ro), where(e))
         half = vfield(vfield(v, "offer_asset_half"), "amount")
         hm = {o: ops for (o, ops) in flat_atoms(half) if not o.startswith("Const(")}
-        chk.expect(hm == {"info.funds[*].amount": frozenset(["div_floor"])}, "AGREE-buffer", "offer_asset_half", "the half kept = the half swapped",
+        chk.expect(hm == {"info.funds[*].amount": frozenset(["div_floor", "div:l"])}, "AGREE-buffer", "offer_asset_half", "the half kept = the half swapped",
                    "offer_asset_half <- %s" % {k: sorted(v) for k, v in hm.items()}, where(e))
         ea = vfield(v, "expected_ask_asset")
         chk.expect(all_origins(vfield(ea, "denom")) == {"Store(POOLS).assets[*].denom"}, "AGREE-buffer", "expected_ask_asset.denom",
